@@ -369,7 +369,139 @@ class Checker(object):
                           {'bp': B.to_json(target), 'kind': kind})
 
 
+def solver_cases(rep, rng, n):
+    """A failing call on a solver object leaves no trace: twin brute-force
+    solvers (pySMT's IncrementalTrackingSolver book-keeping), one of which
+    sees a failing call."""
+    from .brutesolver import classes
+    import pysmt.logics as L
+    import pysmt.typing as T
+    BruteSolver, _ = classes()
+    fails = ['assert_non_boolean', 'get_value_function', 'assert_foreign']
+    for j in range(n):
+        if rep.out_of_time():
+            break
+        kind = fails[j % len(fails)]
+        plan = [rng.choice(['assert', 'push', 'pop', 'solve', 'is_sat',
+                            'assert', 'solve'])
+                for _ in range(rng.randint(2, 8))]
+        after = [rng.choice(['assert', 'push', 'pop', 'solve', 'is_sat',
+                             'get_value', 'last', 'assertions'])
+                 for _ in range(rng.randint(3, 8))] + ['last', 'assertions']
+        at = rng.randrange(len(plan) + 1)
+        res = {}
+        failed = None
+        for which in ('A', 'B'):
+            env = common.fresh_env()
+            mgr = env.formula_manager
+            syms = [mgr.Symbol('s%d' % i) for i in range(40)]
+            opts = {}
+            if kind == 'solve_unknown' and which == 'A':
+                pass
+            solver = BruteSolver(env, L.QF_BOOL)
+            depth = [0]
+            k = [0]
+
+            def do(op):
+                k[0] += 1
+                a, b = syms[2 * k[0] % 40], syms[(2 * k[0] + 1) % 40]
+                if op == 'assert':
+                    solver.add_assertion(mgr.Or(a, b))
+                elif op == 'push':
+                    solver.push()
+                    depth[0] += 1
+                elif op == 'pop':
+                    if depth[0] > 0:
+                        solver.pop()
+                        depth[0] -= 1
+                elif op == 'solve':
+                    return solver.solve()
+                elif op == 'is_sat':
+                    return solver.is_sat(mgr.And(a, mgr.Not(b)))
+                elif op == 'get_value':
+                    if solver.last_result is True and \
+                            solver.last_command == 'solve':
+                        return str(solver.get_value(a))
+                    return None
+                elif op == 'last':
+                    return (solver.last_command, solver.last_result)
+                elif op == 'assertions':
+                    return [str(x) for x in solver.assertions]
+                return None
+            out = []
+            try:
+                for i, op in enumerate(plan):
+                    if i == at and which == 'A':
+                        failed = _solver_fail(kind, solver, env, mgr)
+                    out.append(outcome(lambda: do(op)))
+                if at == len(plan) and which == 'A':
+                    failed = _solver_fail(kind, solver, env, mgr)
+                # a pending pop of a one-shot query may legitimately be
+                # flushed by the failing call: flush it in both twins
+                solver.assertions
+                out = []
+                for op in after:
+                    o = outcome(lambda: do(op))
+                    out.append((op, o if o[0] == 'exc' else ('ok',
+                                                             repr(o[1]))))
+            finally:
+                try:
+                    solver.exit()
+                except Exception:
+                    pass
+            res[which] = out
+        if failed is None or failed[0] != 'exc':
+            rep.count('call_did_not_fail')
+            continue
+        rep.count('failures_injected')
+        rep.count('kind_solver_' + kind)
+        rep.case(key=('solver', kind, j, rep.shard))
+        for pa, pb in zip(res['A'], res['B']):
+            rep.count('probes_compared')
+            if pa != pb:
+                rep.violation(
+                    '%s/trace/solver/%s/%s' % (PROP, kind, pa[0]),
+                    'after a failing %s (%s) on a solver: %s gives %s; '
+                    'without the failing call %s (prefix %s, at %d)' % (
+                        kind, failed[1], pa[0], pa[1], pb[1], plan, at),
+                    {'kind': kind, 'plan': plan, 'after': after})
+                break
+
+
+def _solver_fail(kind, solver, env, mgr):
+    import pysmt.typing as T
+    from pysmt.environment import Environment
+    if kind == 'assert_non_boolean':
+        return outcome(lambda: solver.add_assertion(
+            mgr.Plus(mgr.Symbol('c15_n', T.INT), mgr.Int(1))))
+    if kind == 'pop_beyond':
+        # more pops than pushes: illegal, must fail and leave no trace
+        n = len(solver.frames)
+        return outcome(lambda: solver.pop(n + 1))
+    if kind == 'get_value_function':
+        f = mgr.Symbol('c15_f', T.FunctionType(T.INT, [T.INT]))
+        return outcome(lambda: solver.get_value(f))
+    if kind == 'assert_foreign':
+        other = Environment()
+        g = other.formula_manager.Symbol('c15_foreign')
+        return outcome(lambda: solver.is_sat(g))
+    if kind == 'solve_unknown':
+        from pysmt.exceptions import SolverReturnedUnknownResultError
+        solver.options.unknown_on = solver.n_solve_calls + 1
+
+        def go():
+            try:
+                return solver.solve()
+            finally:
+                solver.options.unknown_on = None
+        return outcome(go)
+    raise ValueError(kind)
+
+
 def run(rep):
+    if not rep.only or rep.only == 'solver':
+        solver_cases(rep, random.Random(rep.seed * 31 + rep.shard),
+                     150 if rep.tier == 'quick' else 20000)
     ck = Checker(rep)
     n = 400 if rep.tier == 'quick' else 30000
     j = 0
